@@ -18,7 +18,7 @@ def run(out, prop, x=(), s_props=None, level=None):
         if spec.get('filter'):
             corpus = [p for p in corpus if spec['filter'](p)]
         st = driver.run_corpus(out, corpus, f"x_{spec['name']}_{out.tier}", unimock_feature=spec.get('unimock', False), tests=spec.get('tests', False),
-                               kani_extra=spec.get('kani_extra', ()), compile_failure_is_violation=spec.get('compile_violation', False),
+                               kani_extra=spec.get('kani_extra', ()), compile_failure_is_violation=spec.get('compile_violation', 'coded'),
                                compile_only=spec.get('compile_only', False))
         _x.merge_x(out, st, corpus)
     if sl:
